@@ -259,8 +259,10 @@ ADDED6 = {
 ADDED7 = {
  "C01": "Round 12: dtype=int constructions of positions in the point module are truncating casts; the point factories keep the values they are given (C01.d).",
  "C02": "Round 12: C01.d shared (origin and opposite corner of a sub-image are built by the point factories).",
- "C04": "Round 12: the quadrature rules behind the reported cost are exact (C15 shared).",
+ "C04": "Round 12: the quadrature rules behind the reported cost are exact (C15 shared); the front end builds one grid from its first mass image (shared C07.d).",
  "C05": "Round 12: the quadrature rules behind the distance are exact (C15 shared).",
+ "C06": "Round 12: the front end builds one grid, from its first mass image (shared C07.d).",
+ "C07": "Round 12: wasserstein_distance builds one grid, from its first mass image, and hands it on unchanged (C07.d).",
  "C08": "Round 12: the direct back-end factorises with SuperLU's default pivoting (C08.m).",
  "C09": "Round 12: roles of locals bound to typed conversions (C09.f); integer voxels converted without going through voxel centres is a named contradiction (C09.d).",
  "C10": "Round 12: hidden-state analysis of every concrete correction with correct_array as entry (C10.h; CurvatureCorrection's documented grid cache exempt).",
